@@ -230,7 +230,7 @@ func (e *Env) tr(x Expr) TV {
 			nm := "q_" + sanitize(v.Name) + "_" + fmt.Sprint(e.depth)
 			bs = append(bs, "("+nm+" "+c.sortOf(gt)+")")
 			ne.bind[v.Name] = TV{T: nm, Ty: gt}
-			if v.Type.Name != "mathint" {
+			if _, isStruct := structOf(gt); v.Type.Name != "mathint" && !isStruct {
 				facts = append(facts, c.typeFacts(nm, gt, 1)...)
 			}
 		}
@@ -725,13 +725,41 @@ func (e *Env) call(x *ECall) TV {
 	case "alive": // alive(ref): allocated
 		comp := c.comp(e.st, "alloc", "(Array Ref Bool)")
 		return TV{T: sel(comp, arg(0).T), Ty: B}
-	case "typeIs": // typeIs(iface, "pkg.T")
+	case "typeIs": // typeIs(iface, T)
 		v := arg(0)
-		s, ok := x.Args[1].(*EStr)
-		if !ok {
-			tfail("typeIs needs a string literal")
+		gt := e.exprType(x.Args[1])
+		return TV{T: fmt.Sprintf("(= (dynType %s) %d)", v.T, c.typeTag(typeKey(gt))), Ty: B}
+	case "as": // as(iface, T): the dynamic value, meaningful when typeIs(iface, T)
+		v := arg(0)
+		gt := e.exprType(x.Args[1])
+		key := typeKey(gt)
+		fn := "box_" + sanitize(key)
+		if len(fn) > 80 {
+			fn = fmt.Sprintf("box_t%d", c.typeTag(key))
 		}
-		return TV{T: fmt.Sprintf("(= (dynType %s) %d)", v.T, c.typeTag(s.V)), Ty: B}
+		s := c.sortOf(gt)
+		if !c.declared[fn] {
+			c.declared[fn] = true
+			c.emit(fmt.Sprintf("(declare-fun %s (%s) Iface)", fn, s))
+			c.emit(fmt.Sprintf("(declare-fun un%s (Iface) %s)", fn, s))
+			c.emit(fmt.Sprintf("(assert (forall ((v %s)) (! (= (un%s (%s v)) v) :pattern ((%s v)))))", s, fn, fn, fn))
+		}
+		return TV{T: "(un" + fn + " " + v.T + ")", Ty: gt}
+	case "box": // box(v): v converted to an interface value
+		v := arg(0)
+		key := typeKey(v.Ty)
+		fn := "box_" + sanitize(key)
+		if len(fn) > 80 {
+			fn = fmt.Sprintf("box_t%d", c.typeTag(key))
+		}
+		s := c.sortOf(v.Ty)
+		if !c.declared[fn] {
+			c.declared[fn] = true
+			c.emit(fmt.Sprintf("(declare-fun %s (%s) Iface)", fn, s))
+			c.emit(fmt.Sprintf("(declare-fun un%s (Iface) %s)", fn, s))
+			c.emit(fmt.Sprintf("(assert (forall ((v %s)) (! (= (un%s (%s v)) v) :pattern ((%s v)))))", s, fn, fn, fn))
+		}
+		return TV{T: "(" + fn + " " + v.T + ")", Ty: types.NewInterfaceType(nil, nil)}
 	case "strlen":
 		return TV{T: "(strlen " + arg(0).T + ")", Ty: types.Typ[types.Int]}
 	case "recvd", "closed":
@@ -925,4 +953,25 @@ func chanComp(c *Ctx, base string, t types.Type) string {
 		}
 	}
 	return base
+}
+
+// exprType interprets an expression as a type (for typeIs / as).
+func (e *Env) exprType(x Expr) types.Type {
+	var conv func(x Expr) *TypeExpr
+	conv = func(x Expr) *TypeExpr {
+		switch y := x.(type) {
+		case *EStar:
+			return &TypeExpr{Kind: "ptr", Elem: conv(y.X)}
+		case *EIdent:
+			return &TypeExpr{Kind: "name", Name: y.Name}
+		case *ESel:
+			if id, ok := y.X.(*EIdent); ok {
+				return &TypeExpr{Kind: "name", Pkg: id.Name, Name: y.Name}
+			}
+		}
+		tfail("expected a type, found %s", x.String())
+		return nil
+	}
+	gt, _ := e.resolveType(conv(x))
+	return gt
 }
